@@ -49,7 +49,13 @@ func c09Gen(t *rapid.T) vPipeCase {
 			continue // never configured
 		}
 		var tr vTrigCfg
-		switch rapid.IntRange(0, 4).Draw(t, "trigkind") {
+		switch rapid.IntRange(0, 5).Draw(t, "trigkind") {
+		case 5: // edge-multi source or receiver (its records can be emitted one cycle after the data arrived)
+			tr = vTrigCfg{EMT: true, EMTMode: rapid.IntRange(0, 2).Draw(t, "emtmode"), EMTLevel: rapid.SampledFrom([]int{2, 10, 100, -10}).Draw(t, "emtlevel"),
+				EMTNoZero: rapid.Bool().Draw(t, "emtnozero") || c.Npre < 4 || c.Nsamp-c.Npre < 4, EMTNMono: rapid.IntRange(0, minInt(2, c.Nsamp-c.Npre)).Draw(t, "emtnmono")}
+			if mode == 1 {
+				tr = vTrigCfg{Edge: true, EdgeRising: true, EdgeLevel: 10} // edge-multi is documented as not restored from a saved configuration
+			}
 		case 0: // all off
 		case 1:
 			tr = vTrigCfg{Auto: true, AutoDelayNs: c.PeriodNs * int64(rapid.SampledFrom([]int{0, c.Nsamp, 3 * c.Nsamp, 7*c.Nsamp + 3}).Draw(t, "delay"))}
@@ -113,7 +119,7 @@ func c09Run(c vPipeCase) (v vVerdict) {
 		return v
 	}
 	for _, h := range c.Hist {
-		if h.Kind == "lengths" || (h.Kind == "trigger" && h.Trig.EMT) {
+		if h.Kind == "lengths" {
 			return v
 		}
 		if h.Kind == "coupling" && (h.Coupling < 1 || h.Coupling > 3) {
@@ -158,6 +164,7 @@ func c09Run(c vPipeCase) (v vVerdict) {
 	}
 	defer func() { vPipeAfterOp = nil }()
 	secondaries := 0
+	emtToPlain := false
 	afterDeleteOrRepeat := false
 	seen := map[string]bool{}
 	sawDelete := false
@@ -175,6 +182,9 @@ func c09Run(c vPipeCase) (v vVerdict) {
 			for _, f := range bi.Primary[p[0]] {
 				want[p[1]][f]++
 				nsec[p[1]]++
+				if bi.Trig[p[0]].EMT && !bi.Trig[p[1]].EMT {
+					emtToPlain = true
+				}
 			}
 		}
 		got := make([]map[FrameIndex]int, c.Nchan)
@@ -227,6 +237,9 @@ func c09Run(c vPipeCase) (v vVerdict) {
 	v.NonTrivial = secondaries > 0 && afterDeleteOrRepeat
 	if secondaries > 0 {
 		v.Classes = append(v.Classes, "secondaries-delivered")
+	}
+	if emtToPlain {
+		v.Classes = append(v.Classes, "edge-multi-source-to-plain-receiver")
 	}
 	if invalidEdits > 0 {
 		v.Classes = append(v.Classes, "out-of-range-index")
